@@ -413,6 +413,25 @@ theorem C14_validator_obligations (body : List BHdr) (bs : Nat) (hbs : bs ≥ 1)
     (validateBlocks body bs = true → ∀ i a c, body[i]? = some a → body[i + 1]? = some c → pairOk a c = true) :=
   ⟨validateBlocks_eq_walk body bs hbs, fun h i a c ha hc => validated_pairs body bs i a c h ha hc⟩
 
+/-- **Every imported header is validated — no off-by-one.**  (a) The validator's
+verdict is exactly: every file index `1 .. len-1` (heights `(startHeight, end]`)
+passes `ValidatePair` (PrevBlock link, proof of work, difficulty, timestamp)
+against the index before it, plus the first-batch rule for index 0.  (b) A
+successful `Import` — any stores, any batch size — ran that verdict over the WHOLE
+file, from index 0 (`C14_source_facts`: the iterators in `Import` start at `0`),
+so every header the import can write (index ≥ 1 for file start 0, see
+`C14_success_chain_valid_partial`) was pair-checked, in particular the first one
+above the existing tip. -/
+theorem C14_validated_range (F : File) (cfg : Cfg) (st : Stores) :
+    (validateBlocks F.blocks cfg.bs = true ↔
+      ((min cfg.bs F.blocks.length = 1 → (F.blocks.head?.map (·.valid)).getD true = true) ∧
+       ∀ i a c, F.blocks[i]? = some a → F.blocks[i + 1]? = some c → pairOk a c = true)) ∧
+    ((importStores F cfg st).1 = none →
+      ∀ i a c, F.blocks[i]? = some a → F.blocks[i + 1]? = some c → pairOk a c = true) := by
+  refine ⟨validateBlocks_iff F.blocks cfg.bs, fun hok i a c ha hc => ?_⟩
+  obtain ⟨_, _, hv⟩ := importRun_ok_facts F cfg st hok
+  exact validated_pairs F.blocks cfg.bs i a c hv ha hc
+
 /-- the validator's gap, as a fact of the model: with a first batch of two or
 more headers a file whose FIRST header fails the sanity check (bad proof of work)
 is accepted; with batch size 1 it is rejected -/
@@ -635,7 +654,8 @@ model transcribes: `processBatch` hands `batchStart` — which `appendNewHeaders
 initialises with the target `startHeight` and advances by `batchEnd + 1` — to both
 iterators' `ReadBatch` as the start INDEX, with the block iterator's end index and
 batch size, while the iterators were created over source INDICES; and
-`writeHeadersToTargetStores` writes the block store first, then the filter store,
+the validators in `Import` run over file indices `0 .. headersCount-1` (the whole
+file); `writeHeadersToTargetStores` writes the block store first, then the filter store,
 and rolls the block store back by `len(blockHeaders)` in the filter-failure branch.
 (A repair of F7 changes the first facts and forces `processBatch` in the model,
 and with it `C14_success_counterexample`, to be revisited.) -/
@@ -645,6 +665,7 @@ theorem C14_source_facts :
     Gen.Import.loopStart = "startHeight" ∧ Gen.Import.loopNext = "batchEnd + 1" ∧
     Gen.Import.iteratorRanges = ["sourceStartIdx,sourceEndIdx", "sourceStartIdx,sourceEndIdx"] ∧
     Gen.Import.writeOrder = ["block.WriteHeaders", "filter.WriteHeaders", "block.RollbackBlockHeaders"] ∧
+    Gen.Import.validatedRanges = ["0,metadata.headersCount - 1", "0,metadata.headersCount - 1"] ∧
     Gen.Import.rollbackInFilterFailure = true ∧
     Gen.Import.rollbackCount = "uint32(len(blockHeaders))" := by decide
 
